@@ -623,7 +623,111 @@ type infoJ struct {
 	SSRC    int64 `json:"ssrc"`
 	RTXSSRC int64 `json:"rtxssrc"`
 	RTXPT   int   `json:"rtxpt"`
-	Nack    bool  `json:"nack"`
+	// Nack: the generator's intention (generic NACK is somewhere in the feedback list). Replay files written
+	// before round 5 have only this flag; they get the two feedback lists used then (feedback()).
+	Nack bool `json:"nack"`
+	// FB is the RTCPFeedback list handed to the interceptor, (Type, Parameter) per entry, when FBSet.
+	FB    [][2]string `json:"fb,omitempty"`
+	FBSet bool        `json:"fbset,omitempty"`
+	// Misc != 0: the StreamInfo fields the responder has no business reading are filled in (derived from Misc).
+	Misc int64 `json:"misc,omitempty"`
+}
+
+// feedback is the RTCPFeedback list of the stream as (Type, Parameter) pairs.
+func (i infoJ) feedback() [][2]string {
+	switch {
+	case i.FBSet:
+		return i.FB
+	case i.Nack:
+		return [][2]string{{"goog-remb", ""}, {"nack", ""}}
+	default:
+		return [][2]string{{"nack", "pli"}}
+	}
+}
+
+// fbFillers: feedback entries that are NOT generic NACK (RFC 4585 "nack" without parameter): the parameterised
+// nack forms, other feedback types, and strings that merely resemble "nack".
+var fbFillers = [][2]string{ //nolint:gochecknoglobals
+	{"nack", "pli"}, {"nack", "sli"}, {"nack", "rpsi"}, {"nack", "app"}, {"nack", " "}, {"nack", "nack"},
+	{"ccm", "fir"}, {"ccm", "tmmbr"}, {"goog-remb", ""}, {"transport-cc", ""}, {"ack", ""}, {"ack", "rpsi"},
+	{"", ""}, {"", "nack"}, {"nac", ""}, {"nackk", ""}, {"nack ", ""}, {" nack", ""}, {"pli", "nack"}, {"trr-int", "100"},
+}
+
+// genFeedback draws a feedback list. want: generic NACK is negotiated - the entry {nack, ""} is put at a random
+// position of the list (alone, first, in the middle, last; now and then twice), whatever else the list holds.
+func genFeedback(r *rand.Rand, want bool, bk map[string]bool) [][2]string {
+	nf := 0
+	switch r.Intn(6) {
+	case 0:
+	case 1, 2:
+		nf = 1
+	case 3:
+		nf = 2
+	default:
+		nf = 2 + r.Intn(4)
+	}
+	fbs := make([][2]string, 0, nf+2)
+	for k := 0; k < nf; k++ {
+		if r.Intn(2) == 0 {
+			fbs = append(fbs, fbFillers[r.Intn(6)]) // a parameterised nack
+		} else {
+			fbs = append(fbs, fbFillers[r.Intn(len(fbFillers))])
+		}
+	}
+	if !want {
+		switch {
+		case len(fbs) == 0 && r.Intn(2) == 0:
+			bk["fb-nil"] = true
+
+			return nil
+		case len(fbs) == 0:
+			bk["fb-empty"] = true
+		default:
+			bk["fb-without-generic-nack"] = true
+		}
+
+		return fbs
+	}
+	ins := func() {
+		at := r.Intn(len(fbs) + 1)
+		switch r.Intn(3) {
+		case 0:
+			at = 0
+		case 1:
+			at = len(fbs)
+		}
+		fbs = append(fbs, [2]string{})
+		copy(fbs[at+1:], fbs[at:])
+		fbs[at] = [2]string{"nack", ""}
+	}
+	ins()
+	if r.Intn(8) == 0 {
+		ins()
+		bk["fb-generic-nack-twice"] = true
+	}
+	first := -1
+	for k, f := range fbs {
+		if f == [2]string{"nack", ""} {
+			first = k
+
+			break
+		}
+	}
+	switch {
+	case len(fbs) == 1:
+		bk["fb-generic-nack-alone"] = true
+	case first == 0:
+		bk["fb-generic-nack-first"] = true
+	default:
+		bk["fb-generic-nack-after-others"] = true
+	}
+	for _, f := range fbs[:first] {
+		if f[0] == "nack" {
+			bk["fb-generic-nack-after-parameterised-nack"] = true
+		}
+	}
+
+	return fbs
 }
 
 type respOp struct {
@@ -663,9 +767,12 @@ type respOut struct {
 }
 
 type respCase struct {
-	Size  int       `json:"size"`
-	Copy  bool      `json:"copy"`
-	Start int       `json:"start"`
+	Size  int  `json:"size"`
+	Copy  bool `json:"copy"`
+	Start int  `json:"start"`
+	// Flt: 0 no ResponderStreamsFilter option (default filter streamSupportNack), 1 a filter accepting every
+	// stream, 2 a filter rejecting every stream
+	Flt   int       `json:"flt,omitempty"`
 	Ops   []respOp  `json:"ops"`
 	Outs  []respOut `json:"outs"`
 }
@@ -746,10 +853,25 @@ func (i infoJ) info() *interceptor.StreamInfo {
 	si := &interceptor.StreamInfo{
 		SSRC: uint32(i.SSRC), SSRCRetransmission: uint32(i.RTXSSRC), PayloadTypeRetransmission: uint8(i.RTXPT), //nolint:gosec
 	}
-	if i.Nack {
-		si.RTCPFeedback = []interceptor.RTCPFeedback{{Type: "goog-remb"}, {Type: "nack"}}
-	} else {
-		si.RTCPFeedback = []interceptor.RTCPFeedback{{Type: "nack", Parameter: "pli"}}
+	if fbs := i.feedback(); fbs != nil {
+		si.RTCPFeedback = make([]interceptor.RTCPFeedback, len(fbs))
+		for k, f := range fbs {
+			si.RTCPFeedback[k] = interceptor.RTCPFeedback{Type: f[0], Parameter: f[1]}
+		}
+	}
+	if m := i.Misc; m != 0 { // none of these decides whether the stream is served or what is retransmitted
+		si.ID = fmt.Sprintf("stream-%d", m)
+		si.MimeType = []string{"video/VP8", "audio/opus", "video/H264", "video/rtx", "", "application/x-unknown"}[m%6]
+		si.PayloadType = uint8(m % 128)  //nolint:gosec
+		si.ClockRate = uint32(m%5) * 8000 //nolint:gosec
+		si.Channels = uint16(m % 3)       //nolint:gosec
+		si.SDPFmtpLine = []string{"", "apt=96", "minptime=10;useinbandfec=1"}[m%3]
+		si.PayloadTypeForwardErrorCorrection = uint8(m % 2 * 49) //nolint:gosec
+		si.SSRCForwardErrorCorrection = uint32(m % 4 * 3000)     //nolint:gosec
+		if m%2 == 0 {
+			si.Attributes = interceptor.Attributes{"k": m}
+			si.RTPHeaderExtensions = []interceptor.RTPHeaderExtension{{URI: "urn:ietf:params:rtp-hdrext:sdes:mid", ID: int(m%14) + 1}}
+		}
 	}
 
 	return si
@@ -772,9 +894,15 @@ func quiesce(base int) bool {
 	return true
 }
 
-func runResp(size int, copyPkts bool, start int, ops []respOp) (respCase, string) {
-	c := respCase{Size: size, Copy: copyPkts, Start: start, Ops: ops}
+func runResp(size int, copyPkts bool, start, flt int, ops []respOp) (respCase, string) {
+	c := respCase{Size: size, Copy: copyPkts, Start: start, Flt: flt, Ops: ops}
 	opts := []nack.ResponderOption{nack.ResponderSize(uint16(size))} //nolint:gosec
+	switch flt {
+	case 1:
+		opts = append(opts, nack.ResponderStreamsFilter(func(*interceptor.StreamInfo) bool { return true }))
+	case 2:
+		opts = append(opts, nack.ResponderStreamsFilter(func(*interceptor.StreamInfo) bool { return false }))
+	}
 	if copyPkts {
 		opts = append(opts, nack.VerifResponderPacketFactory(verifhooks.NewPacketFactoryCopyFixedRTX(uint16(start)))) //nolint:gosec
 	} else {
@@ -856,7 +984,13 @@ func runResp(size int, copyPkts bool, start int, ops []respOp) (respCase, string
 }
 
 func (i infoJ) coq() string {
-	return cq.C("mkSI", cq.Z(i.SSRC), cq.Z(i.RTXSSRC), cq.Z(int64(i.RTXPT)), cq.B(i.Nack))
+	fbs := i.feedback()
+	fs := make([]string, len(fbs))
+	for k, f := range fbs {
+		fs[k] = cq.T(cq.Bytes([]byte(f[0])), cq.Bytes([]byte(f[1])))
+	}
+
+	return cq.C("mkFI", cq.Z(i.SSRC), cq.Z(i.RTXSSRC), cq.Z(int64(i.RTXPT)), cq.L(fs))
 }
 
 // stepTerms prints every executed operation and its observed output as Coq terms.
@@ -868,16 +1002,16 @@ func (c respCase) stepTerms(buckets []string) (opsT, outsT []string, bs []string
 		var op string
 		switch o.K {
 		case "bind":
-			op = cq.C("OBind", o.Info.coq(), cq.Z(int64(o.W)))
+			op = cq.C("FBind", o.Info.coq(), cq.Z(int64(o.W)))
 		case "write":
 			writes++
-			op = cq.C("OWrite", fmt.Sprintf("%d%%nat", o.Hid), o.H.coq(), coqInts(o.P))
+			op = cq.C("FWrite", fmt.Sprintf("%d%%nat", o.Hid), o.H.coq(), coqInts(o.P))
 		case "nack":
 			ps := make([]string, len(o.Pairs))
 			for k, p := range o.Pairs {
 				ps[k] = cq.T(cq.Z(int64(p[0])), cq.Z(int64(p[1])))
 			}
-			op = cq.C("ONack", cq.Z(o.SSRC), cq.L(ps))
+			op = cq.C("FNack", cq.Z(o.SSRC), cq.L(ps))
 			resends += len(c.Outs[i].Emits)
 			if len(c.Outs[i].Emits) > 0 {
 				buckets = append(buckets, "nack-with-resend")
@@ -888,9 +1022,9 @@ func (c respCase) stepTerms(buckets []string) (opsT, outsT []string, bs []string
 				buckets = append(buckets, "nack-without-resend")
 			}
 		case "unbind":
-			op = cq.C("OUnbind", cq.Z(o.Info.SSRC))
+			op = cq.C("FUnbind", cq.Z(o.Info.SSRC))
 		default:
-			op = "OClose"
+			op = "FClose"
 		}
 		es := make([]string, len(c.Outs[i].Emits))
 		for k, e := range c.Outs[i].Emits {
@@ -921,7 +1055,7 @@ func (c respCase) toCase(buckets ...string) cq.Case {
 	}
 
 	return cq.Case{
-		Coq:  cq.T(cq.Z(int64(c.Size)), cq.B(c.Copy), cq.Z(int64(c.Start)), cq.L(steps)),
+		Coq:  cq.T(cq.Z(int64(c.Size)), cq.B(c.Copy), cq.Z(int64(c.Start)), cq.Z(int64(c.Flt)), cq.L(steps)),
 		JSON: c, Buckets: bs, Trivial: resends == 0 || writes < 2,
 	}
 }
@@ -935,7 +1069,7 @@ func (c respCase) toMultiCase(buckets ...string) cq.Case {
 	for i := range opsT {
 		o := c.Ops[i]
 		if o.K != "nack" || len(o.More) == 0 {
-			steps[i] = cq.C("MS", opsT[i], outsT[i])
+			steps[i] = cq.C("FMS", opsT[i], outsT[i])
 
 			continue
 		}
@@ -958,14 +1092,14 @@ func (c respCase) toMultiCase(buckets ...string) cq.Case {
 		if len(c.Outs[i].Groups) > 1 {
 			conc = true
 		}
-		steps[i] = cq.C("MN", cq.L(ns), cq.L(gs))
+		steps[i] = cq.C("FMN", cq.L(ns), cq.L(gs))
 	}
 	if conc {
 		bs = append(bs, "compound-several-goroutines-resent")
 	}
 
 	return cq.Case{
-		Coq:  cq.T(cq.Z(int64(c.Size)), cq.B(c.Copy), cq.Z(int64(c.Start)), cq.L(steps)),
+		Coq:  cq.T(cq.Z(int64(c.Size)), cq.B(c.Copy), cq.Z(int64(c.Start)), cq.Z(int64(c.Flt)), cq.L(steps)),
 		JSON: c, Buckets: bs, Trivial: resends == 0 || writes < 2,
 	}
 }
@@ -977,11 +1111,20 @@ type genStream struct {
 	live bool
 }
 
-func genResp(r *rand.Rand, multi bool) ([]respOp, int, bool, int, []string) {
+func genResp(r *rand.Rand, multi bool) ([]respOp, int, bool, int, int, []string) {
 	size := pickSize(r)
 	copyPkts := r.Intn(7) != 0
 	start := r.Intn(65536)
 	bk := map[string]bool{fmt.Sprintf("size=%d", size): true}
+	flt := 0
+	switch r.Intn(40) {
+	case 0, 1:
+		flt = 1
+		bk["streams-filter=accept-all"] = true
+	case 2:
+		flt = 2
+		bk["streams-filter=reject-all"] = true
+	}
 	if !copyPkts {
 		bk["nocopy"] = true
 	}
@@ -997,7 +1140,11 @@ func genResp(r *rand.Rand, multi bool) ([]respOp, int, bool, int, []string) {
 	}
 	ns := 1 + r.Intn(3)
 	for k := 0; k < ns; k++ {
-		info := infoJ{SSRC: 1000 + int64(k), Nack: r.Intn(10) != 0}
+		info := infoJ{SSRC: 1000 + int64(k), Nack: r.Intn(10) != 0, FBSet: true}
+		info.FB = genFeedback(r, info.Nack, bk)
+		if r.Intn(2) == 0 {
+			info.Misc = 1 + int64(r.Intn(1000))
+		}
 		switch r.Intn(5) {
 		case 0:
 		case 1:
@@ -1013,6 +1160,12 @@ func genResp(r *rand.Rand, multi bool) ([]respOp, int, bool, int, []string) {
 		}
 		if !info.Nack {
 			bk["stream-without-nack"] = true
+		}
+		if info.Nack && flt == 2 {
+			bk["nack-negotiated-but-filtered-out"] = true
+		}
+		if !info.Nack && flt == 1 {
+			bk["no-nack-but-accepted-by-filter"] = true
 		}
 		streams = append(streams, bind(info))
 	}
@@ -1098,9 +1251,18 @@ func genResp(r *rand.Rand, multi bool) ([]respOp, int, bool, int, []string) {
 			st.walk.any = false
 			st.live = false
 		case k < 99: // bind the same SSRC again (new buffer, new handle); keep or drop the old handle
-			nst := bind(st.info)
+			ninfo := st.info
+			if r.Intn(3) == 0 { // the same stream comes back with another feedback list (other order, other companions)
+				ninfo.Nack = r.Intn(6) != 0
+				ninfo.FB, ninfo.FBSet = genFeedback(r, ninfo.Nack, bk), true
+				bk["rebind-other-feedback"] = true
+				if st.info.Nack && !ninfo.Nack {
+					bk["rebind-without-nack-keeps-old-binding"] = true
+				}
+			}
+			nst := bind(ninfo)
 			bk["rebind"] = true
-			if r.Intn(3) == 0 {
+			if r.Intn(3) == 0 || (st.info.Nack && !ninfo.Nack) {
 				streams = append(streams, nst)
 			} else {
 				*st = *nst
@@ -1118,7 +1280,51 @@ func genResp(r *rand.Rand, multi bool) ([]respOp, int, bool, int, []string) {
 		bs = append(bs, k)
 	}
 
-	return ops, size, copyPkts, start, bs
+	return ops, size, copyPkts, start, flt, bs
+}
+
+// fbFamily: a fixed family around the feedback list: generic NACK alone / before / after / between parameterised
+// nack forms and other feedback types, twice, absent; RTX off and on; five packets across the wrap-around, a NACK
+// for three of them, the stream bound again with the list reversed, two more packets, another NACK.
+func fbFamily() [][]respOp {
+	g, pli, sli, fir, remb := [2]string{"nack", ""}, [2]string{"nack", "pli"}, [2]string{"nack", "sli"}, [2]string{"ccm", "fir"}, [2]string{"goog-remb", ""}
+	lists := [][][2]string{
+		{g}, {pli, g}, {g, pli}, {fir, pli, g}, {pli, sli, g, remb}, {remb, fir, g}, {pli, g, g}, {pli, sli, fir, remb, g},
+		{pli}, {pli, sli}, {fir, remb}, {}, nil,
+	}
+	var out [][]respOp
+	for _, l := range lists {
+		for _, rtx := range []bool{false, true} {
+			info := infoJ{SSRC: 1000, FB: l, FBSet: true}
+			for _, f := range l {
+				info.Nack = info.Nack || f == g
+			}
+			if rtx {
+				info.RTXSSRC, info.RTXPT = 2000, 97
+			}
+			ops := []respOp{{K: "bind", Info: info, W: 0}}
+			wr := func(hid, seq int) {
+				ops = append(ops, respOp{K: "write", Hid: hid, P: []int{seq & 255, seq >> 8, 7},
+					H: hdrJ{PT: 96, Seq: seq, TS: int64(seq) * 3000, SSRC: 1000}})
+			}
+			for _, seq := range []int{65533, 65534, 65535, 0, 1} {
+				wr(0, seq)
+			}
+			ops = append(ops, respOp{K: "nack", SSRC: 1000, Pairs: [][2]int{{65534, 0b101}}})
+			rev := info
+			rev.FB = nil
+			for k := len(l) - 1; k >= 0; k-- {
+				rev.FB = append(rev.FB, l[k])
+			}
+			ops = append(ops, respOp{K: "bind", Info: rev, W: 1})
+			wr(1, 2)
+			wr(1, 3)
+			ops = append(ops, respOp{K: "nack", SSRC: 1000, Pairs: [][2]int{{1, 0b11}}})
+			out = append(out, ops)
+		}
+	}
+
+	return out
 }
 
 // ---------- concurrent stress with a content oracle evaluated in Go ----------
@@ -1393,13 +1599,13 @@ func main() {
 		Name: "c04pf", Import: imp, CaseType: "pf_case",
 		Checks: []string{"pf_mismatches", "pf_spec_failures"},
 	}
+	impE := "IV.Check.C04eCheck.\nFrom IV Require Import Model.RtpBuffer Model.PacketFactory Model.Responder Model.StreamFilter"
 	respSet := &cq.Set{
-		Name: "c04resp", Import: imp, CaseType: "resp_case",
-		Checks: []string{"resp_mismatches", "resp_spec_failures"},
+		Name: "c04resp", Import: impE, CaseType: "fb_case",
+		Checks: []string{"fb_mismatches", "fb_spec_failures"},
 	}
 	multiSet := &cq.Set{
-		Name: "c04multi", Import: "IV.Check.C04bCheck.\nFrom IV Require Import Model.RtpBuffer Model.PacketFactory Model.Responder",
-		CaseType: "multi_case", Checks: []string{"multi_mismatches", "multi_spec_failures"},
+		Name: "c04multi", Import: impE, CaseType: "fbm_case", Checks: []string{"fbm_mismatches", "fbm_spec_failures"},
 	}
 	sets := []*cq.Set{bufSet, pfSet, respSet, multiSet}
 	var fails []cq.ImplFailure
@@ -1417,7 +1623,7 @@ func main() {
 		case "c04resp":
 			var c respCase
 			cq.LoadReplay(path, &c)
-			rc, fail := runResp(c.Size, c.Copy, c.Start, c.Ops)
+			rc, fail := runResp(c.Size, c.Copy, c.Start, c.Flt, c.Ops)
 			if fail != "" {
 				fails = append(fails, cq.ImplFailure{Kind: "hang", Detail: fail, Case: rc})
 			}
@@ -1425,7 +1631,7 @@ func main() {
 		case "c04multi":
 			var c respCase
 			cq.LoadReplay(path, &c)
-			rc, fail := runResp(c.Size, c.Copy, c.Start, c.Ops)
+			rc, fail := runResp(c.Size, c.Copy, c.Start, c.Flt, c.Ops)
 			if fail != "" {
 				fails = append(fails, cq.ImplFailure{Kind: "hang", Detail: fail, Case: rc})
 			}
@@ -1451,17 +1657,24 @@ func main() {
 	for i, n := 0, o.Scale(500, 40000); i < n; i++ {
 		pfSet.Cases = append(pfSet.Cases, genPF(r))
 	}
+	for i, ops := range fbFamily() {
+		rc, fail := runResp(8, true, 500+i, 0, ops)
+		if fail != "" {
+			fails = append(fails, cq.ImplFailure{Kind: "hang", Detail: fail, Case: rc})
+		}
+		respSet.Cases = append(respSet.Cases, rc.toCase("fb-family"))
+	}
 	for i, n := 0, o.Scale(950, 60000); i < n; i++ {
-		ops, size, cp, start, bs := genResp(r, false)
-		rc, fail := runResp(size, cp, start, ops)
+		ops, size, cp, start, flt, bs := genResp(r, false)
+		rc, fail := runResp(size, cp, start, flt, ops)
 		if fail != "" {
 			fails = append(fails, cq.ImplFailure{Kind: "hang", Detail: fail, Case: rc})
 		}
 		respSet.Cases = append(respSet.Cases, rc.toCase(bs...))
 	}
 	for i, n := 0, o.Scale(300, 20000); i < n; i++ {
-		ops, size, cp, start, bs := genResp(r, true)
-		rc, fail := runResp(size, cp, start, ops)
+		ops, size, cp, start, flt, bs := genResp(r, true)
+		rc, fail := runResp(size, cp, start, flt, ops)
 		if fail != "" {
 			fails = append(fails, cq.ImplFailure{Kind: "hang", Detail: fail, Case: rc})
 		}
